@@ -237,6 +237,9 @@ func c16Run(c c16Case) Verdict {
 	if len(c.Splits) > 0 {
 		v.Classes = append(v.Classes, "multiple_writes")
 	}
+	if len(c.Body) > 4096 && maxStretch(c.Body) > 900 {
+		v.Classes = append(v.Classes, "long_lines_across_a_flush_of_the_client")
+	}
 	if c.SlowMs > 0 {
 		v.Classes = append(v.Classes, "slow_producer")
 	}
@@ -359,12 +362,50 @@ func c16GenVerdict(t *rapid.T) harness.Decision {
 	return harness.Decision{}
 }
 
+// c16GenLongLines: a message of long lines (up to 1998 octets, the most the
+// server's default line limit lets through), arranged so that a line ending
+// straddles or meets a 4096-octet boundary of the wire stream - that is where
+// the client's buffered writer flushes, so the server sees a segment that
+// ends with the CR, or with the CRLF, of a long line followed by another.
+func c16GenLongLines(t *rapid.T) []byte {
+	var body []byte
+	line := func(n int) {
+		ch := byte('a' + len(body)%26)
+		body = append(body, bytes.Repeat([]byte{ch}, n)...)
+		body = append(body, '\r', '\n')
+	}
+	target := 4096 * rapid.IntRange(1, 2).Draw(t, "flush")
+	for target-len(body) > 1999 {
+		line(rapid.IntRange(200, 1500).Draw(t, "len"))
+	}
+	rem := target - len(body)
+	switch rapid.IntRange(0, 2).Draw(t, "align") {
+	case 0: // the CR is the last octet before the boundary, the LF the first after it
+		if rem-1 >= 1 {
+			line(rem - 1)
+		}
+	case 1: // the CRLF ends exactly at the boundary
+		if rem-2 >= 1 {
+			line(rem - 2)
+		}
+	default:
+		line(rapid.IntRange(1, 1998).Draw(t, "unaligned"))
+	}
+	for i, n := 0, rapid.IntRange(1, 3).Draw(t, "more"); i < n; i++ {
+		line(rapid.SampledFrom([]int{998, 1000, 1500, 1997, 1998}).Draw(t, "long"))
+	}
+	return body
+}
+
 func c16Gen(t *rapid.T) c16Case {
 	var body []byte
 	big := thorough() && rapid.IntRange(0, 9).Draw(t, "big") == 0
 	n := rapid.IntRange(0, 14).Draw(t, "parts")
 	if big {
 		n = rapid.IntRange(200, 1200).Draw(t, "bigparts")
+	}
+	if rapid.IntRange(0, 11).Draw(t, "long_lines") == 0 {
+		body, n = c16GenLongLines(t), 0
 	}
 	for i := 0; i < n; i++ {
 		switch rapid.IntRange(0, 6).Draw(t, "kind") {
